@@ -6,6 +6,7 @@ import (
 	"math/rand"
 	"strings"
 	"sync"
+	"time"
 
 	"verif/run"
 	"verif/sim"
@@ -265,6 +266,112 @@ func fragmentPlausible(rest []byte, reqs []*reqRec, pubs []*sim.Pub) bool {
 	return rem == 2 || rest[0]>>4 == wire.CONNECT || rem == 0
 }
 
+// c08TornAck places the failure of the read routine's own acknowledgement
+// write (torn by an expiry after progress, then an expiry without progress, so
+// that the connection itself stays writable) while 1-3 other requests are
+// queued on the write lock, and delays the read routine on its way to leaving
+// the connection.
+func c08TornAck(c *run.Ctx) {
+	ep := newEpisode(c)
+	w := ep.W
+	defer w.Shutdown()
+	ep.F.Off = true
+	kind := c.Rng.Intn(3) // which acknowledgement gets torn: PUBACK/PUBREC, PUBREL, PUBCOMP
+	torn, stalled := false, false
+	wantAck := []byte{wire.PUBACK, wire.PUBREL, wire.PUBCOMP}[kind]
+	w.Mu.Lock()
+	w.PointPlan = func(w *sim.World, point string, n int) sim.PointAction {
+		if point == "toOffline.enter" {
+			return sim.PointAction{Sleep: 300 * time.Microsecond}
+		}
+		return sim.PointAction{}
+	}
+	w.Mu.Unlock()
+	if err := ep.Init(); err != nil {
+		c.Violate("init-failed", err.Error(), nil)
+		return
+	}
+	w.Mu.Lock()
+	w.WritePlan = func(cn *sim.Conn, p []byte) sim.WriteDecision {
+		isAck := len(p) >= 1 && (p[0]>>4 == wantAck || wantAck == wire.PUBACK && p[0]>>4 == wire.PUBREC)
+		switch {
+		case !torn && isAck && len(p) == 4:
+			torn = true
+			return sim.WriteDecision{Accept: 1 + w.Rng.Intn(3), GateAfter: "ack", Then: "timeout"}
+		case torn && !stalled:
+			// the continuation of the torn acknowledgement: no progress
+			stalled = true
+			return sim.WriteDecision{Accept: 0, Then: "timeout"}
+		}
+		return sim.WriteDecision{Accept: -1}
+	}
+	w.Mu.Unlock()
+	d := ep.D
+	d.StartReader()
+	w.WaitIdle(sim.StepTimeout)
+	switch kind {
+	case 0:
+		w.Broker.Publish("in/ack", []byte("m"), byte(1+c.Rng.Intn(2)), false)
+	case 1:
+		d.Publish(2, false, 3) // PUBREC comes back, the PUBREL gets torn
+	default:
+		w.Broker.Publish("in/ack", []byte("m"), 2, false) // PUBREC, PUBREL, then the PUBCOMP gets torn
+	}
+	if !w.WaitGateWaiting("ack", 1, sim.StepTimeout) {
+		c.Inconclusive("the acknowledgement write was not reached")
+		d.CloseAndWait()
+		return
+	}
+	// requests queue up behind the read routine, which sits inside its write
+	var reqs []*reqRec
+	nreq := 1 + c.Rng.Intn(3)
+	for i := 0; i < nreq; i++ {
+		r := &reqRec{Kind: "publish", Topic: fmt.Sprintf("p/q%d", i), Payload: sim.MarkerPayload(i, 20+c.Rng.Intn(200))}
+		reqs = append(reqs, r)
+		r.Call = d.Go("Publish", func() error { return d.C.Publish(nil, r.Payload, r.Topic) })
+	}
+	time.Sleep(2 * time.Millisecond) // let them reach the lock; nothing depends on it
+	w.Open("ack")
+	for _, r := range reqs {
+		select {
+		case <-r.Call.Done:
+		case <-time.After(sim.StepTimeout):
+			wedged, report := w.Diagnose(1500 * time.Millisecond)
+			if wedged && !r.Call.Returned() {
+				c.Violate("requests-never-return", "a request queued behind the failing acknowledgement never returned", map[string]any{"report": report, "trace_tail": w.TraceTail(60)})
+			} else {
+				c.Inconclusive("queued request slow")
+			}
+			c.Spoiled()
+			return
+		}
+	}
+	w.Broker.ReleaseHeld()
+	if st, _ := ep.awaitOrDiagnose("transfers complete", d.AllClosed); st != "" {
+		c.Inconclusive("slow drain after the torn acknowledgement")
+		c.Spoiled()
+		return
+	}
+	w.WaitIdle(sim.StepTimeout)
+	detail := func() map[string]any {
+		return map[string]any{"torn": wire.TypeName(wantAck), "queued_requests": nreq, "trace_tail": w.TraceTail(traceN(c))}
+	}
+	packets, frags := checkWholePackets(c, ep, reqs, d.PubsSnapshot(), detail)
+	if !d.CloseAndWait() {
+		c.Spoiled()
+	}
+	c.Count("packets_decoded", packets)
+	c.Count("trailing_fragments", frags)
+	c.Count("torn_acknowledgement_cases", 1)
+	w.Mu.Lock()
+	hit := torn && stalled
+	w.Mu.Unlock()
+	if hit {
+		c.Trigger(fmt.Sprintf("torn-ack|%s|queued=%d", wire.TypeName(wantAck), nreq))
+	}
+	c.Sample(map[string]any{"scenario": "acknowledgement torn, then stalled, with requests queued", "acknowledgement": wire.TypeName(wantAck), "queued_requests": nreq, "packets_decoded": packets})
+}
+
 func init() {
 	run.Register(&run.Prop{
 		ID:    "C08",
@@ -276,11 +383,15 @@ func init() {
 			return 1200
 		},
 		ChunkSize:   40,
-		Rule:        "each case runs 1-12 goroutines issuing Publish/PublishRetained (header+payload vectored), Subscribe/Unsubscribe/Ping (single buffer) and persisted publishes while the reference broker sends QoS 1/2 messages (so the read routine writes acknowledgements) and connections get replaced (resend); the scripted connection splits writes: accepted byte counts 0, 1, len-1 and PRNG values followed by a deadline expiry (the call continues when a byte was accepted) or a hard error, several splits per packet, spanning the header/payload boundary. Oracle per connection: the byte log decodes (independent codec) into complete packets, each equal byte for byte to the reference encoding of an issued request, a stored record or an owed acknowledgement, optionally followed by ONE incomplete packet that is a true prefix of an issued packet and ends the log; a request that returned nil has its packet in full on some connection. One case in 12 replaces the scripted connection by AF_UNIX socket pairs (the net.Buffers writev path) whose peer reads slowly and stalls beyond PauseTimeout: every byte the kernel accepted is read back and must decode into whole packets with byte-exact payloads, a Publish that returned nil must be there in full, a trailing fragment must be a prefix of an issued packet. Non-trivial: at least one write split by the script (sockets: at least one partial write continued after an expiry, seen through a note hook); distinct by goroutines, split kinds fired and connections.",
+		Rule:        "each case runs 1-12 goroutines issuing Publish/PublishRetained (header+payload vectored), Subscribe/Unsubscribe/Ping (single buffer) and persisted publishes while the reference broker sends QoS 1/2 messages (so the read routine writes acknowledgements) and connections get replaced (resend); the scripted connection splits writes: accepted byte counts 0, 1, len-1 and PRNG values followed by a deadline expiry (the call continues when a byte was accepted) or a hard error, several splits per packet, spanning the header/payload boundary. Oracle per connection: the byte log decodes (independent codec) into complete packets, each equal byte for byte to the reference encoding of an issued request, a stored record or an owed acknowledgement, optionally followed by ONE incomplete packet that is a true prefix of an issued packet and ends the log; a request that returned nil has its packet in full on some connection. One case in 12 tears the read routine's own acknowledgement (expiry after 1-3 bytes, then an expiry without progress, so the connection stays writable) while 1-3 requests wait on the write lock and the read routine is delayed at the entry of its way offline. One case in 12 replaces the scripted connection by AF_UNIX socket pairs (the net.Buffers writev path) whose peer reads slowly and stalls beyond PauseTimeout: every byte the kernel accepted is read back and must decode into whole packets with byte-exact payloads, a Publish that returned nil must be there in full, a trailing fragment must be a prefix of an issued packet. Non-trivial: at least one write split by the script (sockets: at least one partial write continued after an expiry, seen through a note hook); distinct by goroutines, split kinds fired and connections.",
 		Assumptions: []string{"a failed Write reports fewer bytes than given; an expiry is only scripted under an armed write deadline", "1 case in 12 runs over AF_UNIX socket pairs with small kernel buffers, a slow reader and a PauseTimeout of 3-22 ms (genuine partial write/writev results and expiries); its oracle looks at bytes only and asserts nothing about timing"},
 		Run: func(c *run.Ctx) {
 			if c.Case%12 == 5 {
 				c08Socket(c)
+				return
+			}
+			if c.Case%12 == 7 {
+				c08TornAck(c)
 				return
 			}
 			ep := newEpisode(c)
